@@ -276,26 +276,38 @@ Inductive out :=
 Definition with_layers (c : cache) : cache :=
   mkCache (cells c) (phys c) (ranges c) (window c) (cpad c) (bpad c) (can_shift c) true.
 
-Definition do_place (c : cache) (loc : nat) (batch : list entry) : cache * out :=
+(** [StartForward] proper: metadata only ([meta_place], [start_forward_meta]); the K/V rows arrive with [Put] *)
+Definition meta_place (c : cache) (loc : nat) (batch : list entry) : cache * out :=
   let '(cs, rs, cur) := place (cells c) (ranges c) new_range loc batch in
   let pr := pad_range (cpad c) cur in
   let vis := map (fun e : entry => let '(q, p, _) := e in mask_row (window c) cs pr q p) batch in
-  (with_layers (with_cpr c cs (put (phys c) loc batch) rs), OFwd (mkFwd loc (fst pr) (snd pr) vis)).
+  (with_cpr c cs (phys c) rs, OFwd (mkFwd loc (fst pr) (snd pr) vis)).
 
-Definition start_forward (fx : bool) (c : cache) (batch : list entry) : cache * out :=
+Definition start_forward_meta (fx : bool) (c : cache) (batch : list entry) : cache * out :=
   let c1 := update_window c batch in
   let n := length batch in
   match find_start (cells c1) n with
-  | Some loc => do_place c1 loc batch
+  | Some loc => meta_place c1 loc batch
   | None =>
       match defrag fx c1 with
       | None => (c1, OPanic)
       | Some c2 =>
           match find_start (cells c2) n with
-          | Some loc => do_place c2 loc batch
+          | Some loc => meta_place c2 loc batch
           | None => (c2, OErr EFull)
           end
       end
+  end.
+
+Definition put_batch (c : cache) (loc : nat) (batch : list entry) : cache :=
+  with_layers (with_cpr c (cells c) (put (phys c) loc batch) (ranges c)).
+
+(** StartForward followed by Put on every layer (what a forward pass does) *)
+Definition start_forward (fx : bool) (c : cache) (batch : list entry) : cache * out :=
+  let '(c', r) := start_forward_meta fx c batch in
+  match r with
+  | OFwd f => (put_batch c' (f_loc f) batch, r)
+  | _ => (c', r)
   end.
 
 (** ** CopyPrefix *)
@@ -386,3 +398,50 @@ Definition step (fx : bool) (c : cache) (o : op) : cache * out :=
   end.
 
 Definition run (fx : bool) (c : cache) (ops : list op) : cache := fold_left (fun c o => fst (step fx c o)) ops c.
+
+(** ** Remove as the interface prescribes it (kvcache/cache.go): if it fails, the sequence is cleared *)
+Definition remove_c (c : cache) (q : nat) (b e : Z) : cache * out :=
+  let '(c', r) := remove c q b e in
+  match r with
+  | OErr _ => (fst (remove c' q 0 MaxInt32), r)
+  | _ => (c', r)
+  end.
+
+Definition pstep (c : cache) (o : op) : cache * out :=
+  match o with
+  | Remove q b e => remove_c c q b e
+  | _ => step true c o
+  end.
+Definition prun (c : cache) (ops : list op) : cache := fold_left (fun c o => fst (pstep c o)) ops c.
+
+(** ** WrapperCache (kvcache/wrapper.go) over two caches: every operation goes to both; a forward pass that fails in
+    the second cache is unwound in the first by [Remove(seq_k, pos_k, MaxInt32)] for every batch entry *)
+Fixpoint unwind (c : cache) (batch : list entry) : cache :=
+  match batch with
+  | [] => c
+  | (q, p, _) :: t => unwind (fst (remove c q p MaxInt32)) t
+  end.
+
+Definition wstep (fx : bool) (w : cache * cache) (o : op) : (cache * cache) * out * out :=
+  let '(c0, c1) := w in
+  match o with
+  | Forward batch =>
+      let '(c0', r0) := start_forward_meta fx c0 batch in
+      match r0 with
+      | OFwd f0 =>
+          let '(c1', r1) := start_forward_meta fx c1 batch in
+          match r1 with
+          | OFwd f1 => ((put_batch c0' (f_loc f0) batch, put_batch c1' (f_loc f1) batch), r0, r1)
+          | _ => ((unwind c0' batch, c1'), r1, r1)
+          end
+      | _ => ((c0', c1), r0, r0)
+      end
+  | Copy s d len => ((copy_prefix c0 s d len, copy_prefix c1 s d len), OOk, OOk)
+  | Remove q b e =>
+      let '(c0', r0) := remove c0 q b e in
+      match r0 with
+      | OOk => let '(c1', r1) := remove c1 q b e in ((c0', c1'), r1, r1)
+      | _ => ((c0', c1), r0, r0)
+      end
+  | CanResume q p => (w, OBool (can_resume fx c0 q p && can_resume fx c1 q p), OOk)
+  end.
